@@ -209,7 +209,7 @@ fn gen_case(r: &mut Rng, n: usize, o: &Opts) -> (Value, Value) {
     tags.push(format!("where:{}", sh.where_kind));
     tags.push(format!("op:{}", top));
     tags.push(format!("path:{}", path));
-    tags.push(format!("cfg:{}", cfg.name.split('+').next().unwrap_or("").trim_end_matches(char::is_numeric)));
+    tags.push(format!("cfg:{}{}", if cfg.name.starts_with("pq") { "pq" } else if cfg.name.starts_with("mem1") { "mem1" } else { "memb" }, if cfg.mem_limit.is_some() { "+lim" } else { "" }));
     for (f, d) in &sh.aggs { tags.push(format!("agg:{}{}:{}", f.json(), if *d { "_distinct" } else { "" }, t.cols[3].cty.name())); }
     for w in desc.split(' ') { tags.push(w.to_string()); }
     if t.rows.is_empty() { tags.push("empty_table".into()); }
